@@ -109,20 +109,20 @@ theorem siteParams_pin : Gen.FlightSites.siteParams = [("call_cancel_c0", ["c_is
   ("group_deleteCall_r1", ["cl__nil"]),
   ("group_delete_c0", ["g_isInitialized_Load"])] := by rfl
 
-theorem shape_pin : Gen.FlightSites.shape = [("newCall", [0, 0, 1, 1, 0, 0]),
-  ("call_Key", [0, 0, 0, 1, 0, 0]),
-  ("call_Value", [0, 0, 0, 1, 0, 0]),
-  ("call_AsPointer", [0, 0, 0, 1, 0, 0]),
-  ("call_cancel", [1, 0, 0, 0, 0, 0]),
-  ("call_wait", [0, 0, 0, 0, 0, 0]),
-  ("mapCallManager_FromPointer", [0, 0, 0, 1, 0, 0]),
-  ("mapCallManager_IsNil", [0, 0, 0, 1, 0, 0]),
-  ("group_init", [2, 0, 1, 0, 0, 0]),
-  ("group_getCall", [0, 0, 0, 1, 0, 0]),
-  ("group_startCall", [2, 0, 2, 0, 0, 0]),
-  ("group_doCall", [1, 0, 4, 1, 1, 0]),
-  ("group_doBulkCall", [5, 0, 12, 1, 1, 0]),
-  ("group_deleteCall", [2, 0, 2, 2, 0, 0]),
-  ("group_delete", [1, 0, 0, 0, 0, 0])] := by rfl
+theorem shape_pin : Gen.FlightSites.shape = [("newCall", [0, 0, 1, 1, 0, 0, 0]),
+  ("call_Key", [0, 0, 0, 1, 0, 0, 0]),
+  ("call_Value", [0, 0, 0, 1, 0, 0, 0]),
+  ("call_AsPointer", [0, 0, 0, 1, 0, 0, 0]),
+  ("call_cancel", [1, 0, 0, 0, 0, 0, 0]),
+  ("call_wait", [0, 0, 0, 0, 0, 0, 0]),
+  ("mapCallManager_FromPointer", [0, 0, 0, 1, 0, 0, 0]),
+  ("mapCallManager_IsNil", [0, 0, 0, 1, 0, 0, 0]),
+  ("group_init", [2, 0, 1, 0, 0, 0, 0]),
+  ("group_getCall", [0, 0, 0, 1, 0, 0, 0]),
+  ("group_startCall", [2, 0, 2, 0, 0, 0, 0]),
+  ("group_doCall", [1, 0, 4, 1, 1, 0, 0]),
+  ("group_doBulkCall", [5, 0, 12, 1, 1, 0, 0]),
+  ("group_deleteCall", [2, 0, 2, 2, 0, 0, 0]),
+  ("group_delete", [1, 0, 0, 0, 0, 0, 0])] := by rfl
 
 end OtterVerif.Pin.FlightSites
